@@ -261,7 +261,9 @@ func C05(rep *ev.Reporter, tier string) {
 	}
 	var printings, nontrivial, programs int64
 	var mu sync.Mutex
-	flat := func(e grl.Expr) bool { return !strings.ContainsAny(grl.Print(e, grl.Style{PrecTab: table}), "()") || isCallOnly(e) }
+	flat := func(e grl.Expr) bool {
+		return !strings.ContainsAny(grl.Print(e, grl.Style{PrecTab: table}), "()") || isCallOnly(e)
+	}
 	ParallelEach(len(batches), func(bi int) {
 		bt := batches[bi]
 		if bud.Over() {
@@ -520,8 +522,8 @@ func c05Unquote(lit string) (string, bool) {
 }
 
 type c05Lit struct {
-	text  string
-	class string
+	text    string
+	class   string
 	fromDoc bool
 }
 
